@@ -133,3 +133,28 @@ def str_consts(node):
 
 def is_self_attr(node, attr=None):
     return isinstance(node, ast.Attribute) and isinstance(node.value, ast.Name) and node.value.id == "self" and (attr is None or node.attr == attr)
+
+
+def line_loop(loop, lines):
+    """Classify ``for ... in ...`` over the list ``lines``: (order, text of the expression denoting the current line)."""
+    it = U(loop.iter)
+    tv = U(loop.target)
+    if it in ("range(len(%s) - 1, -1, -1)" % lines, "reversed(range(len(%s)))" % lines):
+        return "desc", "%s[%s]" % (lines, tv)
+    if it in ("reversed(%s)" % lines, "%s[::-1]" % lines):
+        return "desc", tv
+    if it == "range(len(%s))" % lines:
+        return "asc", "%s[%s]" % (lines, tv)
+    if it == lines:
+        return "asc", tv
+    if it == "enumerate(%s)" % lines and isinstance(loop.target, ast.Tuple) and len(loop.target.elts) == 2:
+        return "asc", U(loop.target.elts[1])
+    return None, None
+
+
+def some_truthy(atoms, name):
+    """Do the guard atoms say 'some element of <name> is truthy'?  Returns True / False (says none is) / None."""
+    for t, p in atoms:
+        if t in ("any((l for l in %s))" % name, "any(%s)" % name, "any((line for line in %s))" % name, "any((x for x in %s))" % name, "any((bool(l) for l in %s))" % name):
+            return p
+    return None
